@@ -15,6 +15,8 @@ import Mathlib.Data.Matrix.Basis
 import Mathlib.Data.Matrix.Mul
 import Mathlib.LinearAlgebra.Matrix.NonsingularInverse
 import Mathlib.LinearAlgebra.Matrix.Adjugate
+import Mathlib.Algebra.Order.Ring.Abs
+import Mathlib.Algebra.Order.Group.Abs
 import GT.Base.DMat
 
 namespace GT.Cox
@@ -61,6 +63,12 @@ noncomputable def canonRep (B : Matrix (Fin n) (Fin n) R) (i : Fin n) : Matrix (
 `lambda mat: Winv @ mat @ W` (`Winv` is computed separately by `diagonalize_form`, it is
 *not* obtained by inverting `W`) -/
 def conjMat (W Winv M : Matrix (Fin n) (Fin n) R) : Matrix (Fin n) (Fin n) R := Winv * M * W
+
+/-- the guard of the repaired `cartan_representation(diagonalize=True)`:
+`np.allclose(Winv @ W, identity, rtol=0, atol=tol)`; when it fails the code raises `GeometryError`
+(a degenerate form has no diagonalising change of basis) -/
+def diagGuard {K : Type*} [CommRing K] [LinearOrder K] (tol : K) (W Winv : Matrix (Fin n) (Fin n) K) : Bool :=
+  decide (∀ i j, |(Winv * W - 1) i j| ≤ tol)
 
 /-- `CoxeterGroup.hyperbolic_rep` on a generator: the geometric representation composed with
 `conjMat` for the diagonalising pair of the cosine form -/
